@@ -185,16 +185,14 @@ def seqOf (t : CodeTable) (assign : List (String × List Char)) (pfx : String) (
   | none => .error .letter
 
 def seqEntry (t : CodeTable) (assign : List (String × List Char)) (pfx : String) (e : SeqE) :
-    Except Err (String × List Char) :=
-  match seqOf t assign pfx e.bases with
-  | .error err => .error err
-  | .ok v => .ok (pfx ++ e.name, v)
+    Except Err (String × List Char) := do
+  let x ← seqOf t assign pfx e.bases
+  pure (pfx ++ e.name, x)
 
 def strandEntry (t : CodeTable) (assign : List (String × List Char)) (pfx : String) (e : StrandE) :
-    Except Err (String × Bool × List Char) :=
-  match seqOf t assign pfx e.bases with
-  | .error err => .error err
-  | .ok v => .ok (pfx ++ e.name, e.dummy, v)
+    Except Err (String × Bool × List Char) := do
+  let x ← seqOf t assign pfx e.bases
+  pure (pfx ++ e.name, e.dummy, x)
 
 /-- the values of the strands a structure names (the first strand of that name, as `find?` does) -/
 def partsOf (pfx : String) (strands : List (String × Bool × List Char)) (names : List String) :
@@ -203,28 +201,56 @@ def partsOf (pfx : String) (strands : List (String × Bool × List Char)) (names
     | some x => Except.ok x.2.2 | none => Except.error Err.missing)
 
 def structEntry (d : List (List Char × List Char)) (pfx : String) (strands : List (String × Bool × List Char))
-    (e : StructE) : Except Err (String × List Char) :=
-  match partsOf pfx strands e.strands with
-  | .error err => .error err
-  | .ok parts =>
-    match lookupLast d (pfx ++ e.name).toList with
-    | none => .error .missing
-    | some r => if r != joinPlus parts then .error .structure else .ok (pfx ++ e.name, joinPlus parts)
+    (e : StructE) : Except Err (String × List Char) := do
+  let parts ← partsOf pfx strands e.strands
+  let sq := joinPlus parts
+  match lookupLast d (pfx ++ e.name).toList with
+    | none => throw Err.missing
+    | some r => if r != sq then throw Err.structure else pure (pfx ++ e.name, sq)
 
+/-- `applyComp` with its four loops named (definitional) -/
 theorem applyComp_eq (t : CodeTable) (d : List (List Char × List Char)) (s : Comp.St) :
-    applyComp t d s =
-      match assignBases t d s s.baseSeqs with
-      | .error err => .error err
-      | .ok assign =>
-        match s.seqs.mapM (seqEntry t assign s.pfx) with
-        | .error err => .error err
-        | .ok seqs =>
-          match s.strands.mapM (strandEntry t assign s.pfx) with
-          | .error err => .error err
-          | .ok strands =>
-            match s.structs.mapM (structEntry d s.pfx strands) with
-            | .error err => .error err
-            | .ok structs => .ok ⟨seqs, strands, structs⟩ := rfl
+    applyComp t d s = (do
+      let assign ← assignBases t d s s.baseSeqs
+      let seqs ← s.seqs.mapM (seqEntry t assign s.pfx)
+      let strands ← s.strands.mapM (strandEntry t assign s.pfx)
+      let structs ← s.structs.mapM (structEntry d s.pfx strands)
+      pure ⟨seqs, strands, structs⟩) := rfl
+
+theorem seqEntry_ok_iff {t : CodeTable} {a : List (String × List Char)} {p : String} {e : SeqE}
+    {x : String × List Char} :
+    seqEntry t a p e = .ok x ↔ ∃ v, concatBases a t p e.bases = some v ∧ x = (p ++ e.name, v) := by
+  simp only [seqEntry, seqOf, bind, Except.bind, pure, Except.pure]
+  cases concatBases a t p e.bases with
+  | none => simp
+  | some v => simp [eq_comm]
+
+theorem strandEntry_ok_iff {t : CodeTable} {a : List (String × List Char)} {p : String} {e : StrandE}
+    {x : String × Bool × List Char} :
+    strandEntry t a p e = .ok x ↔ ∃ v, concatBases a t p e.bases = some v ∧ x = (p ++ e.name, e.dummy, v) := by
+  simp only [strandEntry, seqOf, bind, Except.bind, pure, Except.pure]
+  cases concatBases a t p e.bases with
+  | none => simp
+  | some v => simp [eq_comm]
+
+theorem structEntry_ok_iff {d : List (List Char × List Char)} {p : String}
+    {strands : List (String × Bool × List Char)} {e : StructE} {x : String × List Char} :
+    structEntry d p strands e = .ok x ↔
+      ∃ parts, partsOf p strands e.strands = .ok parts ∧
+        lookupLast d (p ++ e.name).toList = some (joinPlus parts) ∧ x = (p ++ e.name, joinPlus parts) := by
+  simp only [structEntry, bind, Except.bind, pure, Except.pure, throw, throwThe, MonadExceptOf.throw]
+  cases partsOf p strands e.strands with
+  | error err => simp
+  | ok parts =>
+    simp only []
+    cases lookupLast d (p ++ e.name).toList with
+    | none => simp
+    | some r =>
+      simp only []
+      by_cases hr : r = joinPlus parts
+      · subst hr; simp [eq_comm]
+      · have : (r != joinPlus parts) = true := bne_iff_ne.2 hr
+        simp [this, hr]
 
 theorem applyComp_ok {t : CodeTable} {d : List (List Char × List Char)} {s : Comp.St} {o : Out}
     (h : applyComp t d s = .ok o) :
@@ -233,6 +259,7 @@ theorem applyComp_ok {t : CodeTable} {d : List (List Char × List Char)} {s : Co
       s.strands.mapM (strandEntry t assign s.pfx) = .ok o.strands ∧
       s.structs.mapM (structEntry d s.pfx o.strands) = .ok o.structs := by
   rw [applyComp_eq] at h
+  simp only [bind, Except.bind, pure, Except.pure] at h
   split at h
   · cases h
   · rename_i assign ha
@@ -317,5 +344,334 @@ theorem foldlM_applyStep_congr {t t' : CodeTable} {d d' : List (List Char × Lis
     cases applyStep t d acc s with
     | error e => rfl
     | ok o => exact ih (fun s hs => h s (List.mem_cons_of_mem _ hs)) o
+
+/-! ### specification vocabulary (C17 / C06) -/
+
+/-- the value `apply_design` stores in an atomic sequence of component `s`: the record of its full name
+    (nothing for a zero-length dummy) -/
+def atomVal (d : List (List Char × List Char)) (s : Comp.St) (e : SeqE) : List Char :=
+  if e.len == 0 then [] else (lookupLast d (s.pfx ++ e.name).toList).getD []
+
+/-- full name ↦ value for the atomic sequences of one component, in table order -/
+def atomAssign (d : List (List Char × List Char)) (s : Comp.St) : List (String × List Char) :=
+  s.baseSeqs.map (fun e => (s.pfx ++ e.name, atomVal d s e))
+
+/-- **length and complementarity** for one atomic sequence: the design has a record of its full name with
+    the declared length, and the record of the starred name is its reverse complement -/
+def AtomOk (t : CodeTable) (d : List (List Char × List Char)) (s : Comp.St) (e : SeqE) : Prop :=
+  ∃ v w, lookupLast d (s.pfx ++ e.name).toList = some v ∧ v.length = e.len ∧
+    t.wcStr v = some w ∧ lookupLast d (s.pfx ++ e.name ++ "*").toList = some w
+
+/-- **concatenation**: `x` is the concatenation, over the base references `bs`, of the value assigned to the
+    referenced atomic sequence — reverse-complemented for a reversed reference -/
+def IsConcat (t : CodeTable) (assign : List (String × List Char)) (pfx : String) (bs : List BaseRef)
+    (x : List Char) : Prop :=
+  ∃ parts, Forall₂ (fun (b : BaseRef) (p : List Char) =>
+      ∃ v, assign.lookup (pfx ++ b.name) = some v ∧ (if b.rev = true then t.wcStr v = some p else p = v)) bs parts
+    ∧ x = parts.flatten
+
+/-- **structure–sequence**: `x` is the `+`-join of the values of the named strands (first strand of each
+    name among the strands just written) and the design's record of the structure's name is exactly `x` -/
+def IsJoin (d : List (List Char × List Char)) (pfx : String) (strands : List (String × Bool × List Char))
+    (e : StructE) (x : List Char) : Prop :=
+  ∃ parts, Forall₂ (fun (n : String) (p : List Char) =>
+      ∃ y, strands.find? (·.1 == pfx ++ n) = some y ∧ y.2.2 = p) e.strands parts
+    ∧ x = joinPlus parts ∧ lookupLast d (pfx ++ e.name).toList = some x
+
+/-- what one component's share `o` of the output satisfies -/
+structure CompRel (t : CodeTable) (d : List (List Char × List Char)) (s : Comp.St) (o : Out) : Prop where
+  /-- every non-dummy atomic sequence has a record of the right length whose starred record is its complement -/
+  atoms : ∀ e ∈ s.baseSeqs, e.len ≠ 0 → AtomOk t d s e
+  /-- one `.seqs` entry per sequence (atomic and super), in table order, each the concatenation of its bases -/
+  seqs : Forall₂ (fun (e : SeqE) (x : String × List Char) =>
+      x.1 = s.pfx ++ e.name ∧ IsConcat t (atomAssign d s) s.pfx e.bases x.2) s.seqs o.seqs
+  /-- one entry per strand, with its dummy flag, each the concatenation of its bases -/
+  strands : Forall₂ (fun (e : StrandE) (x : String × Bool × List Char) =>
+      x.1 = s.pfx ++ e.name ∧ x.2.1 = e.dummy ∧ IsConcat t (atomAssign d s) s.pfx e.bases x.2.2) s.strands o.strands
+  /-- one entry per structure: the join of its strands, equal to the structure's own record -/
+  structs : Forall₂ (fun (e : StructE) (x : String × List Char) =>
+      x.1 = s.pfx ++ e.name ∧ IsJoin d s.pfx o.strands e x.2) s.structs o.structs
+
+/-- the relations of C17 / C06 for a whole tree: the output is, in component order, one share per component,
+    each satisfying `CompRel` -/
+def Relations (t : CodeTable) (inst : Inst) (d : List (List Char × List Char)) (out : Out) : Prop :=
+  ∃ outs, Forall₂ (CompRel t d) (compsOf 64 inst) outs ∧ out = catOuts outs
+
+/-- the names whose records `apply` reads for one component -/
+def relevantComp (s : Comp.St) : List (List Char) :=
+  (s.baseSeqs.filter (·.len != 0)).flatMap (fun e =>
+    [(s.pfx ++ e.name).toList, (s.pfx ++ e.name ++ "*").toList])
+  ++ s.structs.map (fun e => (s.pfx ++ e.name).toList)
+
+/-- full names of the non-dummy atomic sequences, those names with `*` appended, structure full names -/
+def relevant (inst : Inst) : List (List Char) := (compsOf 64 inst).flatMap relevantComp
+
+/-! ### `assignBases` -/
+
+theorem assignBases_ok {t : CodeTable} {d : List (List Char × List Char)} {s : Comp.St} {l : List SeqE}
+    {a : List (String × List Char)} (h : assignBases t d s l = .ok a) :
+    a = l.map (fun e => (s.pfx ++ e.name, atomVal d s e)) ∧ ∀ e ∈ l, e.len ≠ 0 → AtomOk t d s e := by
+  induction l generalizing a with
+  | nil => simp only [assignBases] at h; cases h; exact ⟨rfl, fun e he => nomatch he⟩
+  | cons e r ih =>
+    simp only [assignBases] at h
+    split at h
+    · rename_i h0
+      cases hr : assignBases t d s r with
+      | error err => rw [hr] at h; cases h
+      | ok a' =>
+        rw [hr] at h; cases h
+        obtain ⟨e1, e2⟩ := ih hr
+        refine ⟨?_, ?_⟩
+        · have h0' : e.len = 0 := by simpa using h0
+          subst e1; simp [atomVal, h0']
+        · intro x hx hx0
+          rcases List.mem_cons.1 hx with rfl | hx
+          · exact absurd (by simpa using h0) hx0
+          · exact e2 x hx hx0
+    · rename_i h0
+      split at h
+      · cases h
+      · rename_i sq hsq
+        split at h
+        · cases h
+        · rename_i hlen
+          split at h
+          · cases h
+          · rename_i w hw
+            split at h
+            · cases h
+            · rename_i ws hws
+              split at h
+              · cases h
+              · rename_i hne
+                cases hr : assignBases t d s r with
+                | error err => rw [hr] at h; cases h
+                | ok a' =>
+                  rw [hr] at h; cases h
+                  obtain ⟨e1, e2⟩ := ih hr
+                  have hlen' : sq.length = e.len := by simpa using hlen
+                  have hws' : ws = w := by simpa using hne
+                  refine ⟨?_, ?_⟩
+                  · have h0' : e.len ≠ 0 := by simpa using h0
+                    have hsq' := hsq
+                    simp only [String.toList_append] at hsq'
+                    subst e1; simp [atomVal, h0', hsq']
+                  · intro x hx hx0
+                    rcases List.mem_cons.1 hx with rfl | hx
+                    · exact ⟨sq, w, hsq, hlen', hw, hws' ▸ hws⟩
+                    · exact e2 x hx hx0
+
+theorem assignBases_congr {t : CodeTable} {d d' : List (List Char × List Char)} {s : Comp.St} {l : List SeqE}
+    (h : ∀ e ∈ l, e.len ≠ 0 →
+      lookupLast d' (s.pfx ++ e.name).toList = lookupLast d (s.pfx ++ e.name).toList ∧
+      lookupLast d' (s.pfx ++ e.name ++ "*").toList = lookupLast d (s.pfx ++ e.name ++ "*").toList) :
+    assignBases t d' s l = assignBases t d s l := by
+  induction l with
+  | nil => rfl
+  | cons e r ih =>
+    have ihr := ih (fun x hx => h x (List.mem_cons_of_mem _ hx))
+    simp only [assignBases]
+    by_cases h0 : (e.len == 0) = true
+    · simp only [h0, if_true, ihr]
+    · have hn : e.len ≠ 0 := by simpa using h0
+      obtain ⟨e1, e2⟩ := h e List.mem_cons_self hn
+      simp only [h0, e1, e2, ihr]
+
+/-! ### concatenation -/
+
+theorem concatBases_isConcat {t : CodeTable} {assign : List (String × List Char)} {pfx : String}
+    {bs : List BaseRef} {x : List Char} (h : concatBases assign t pfx bs = some x) :
+    IsConcat t assign pfx bs x := by
+  induction bs generalizing x with
+  | nil => simp only [concatBases] at h; cases h; exact ⟨[], .nil, rfl⟩
+  | cons b r ih =>
+    simp only [concatBases] at h
+    split at h
+    · rename_i y z hy hz
+      cases h
+      obtain ⟨parts, hp, rfl⟩ := ih hz
+      refine ⟨y :: parts, .cons ?_ hp, by simp⟩
+      simp only [seqOfBase] at hy
+      split at hy
+      · cases hy
+      · rename_i v hv
+        refine ⟨v, hv, ?_⟩
+        by_cases hb : b.rev = true
+        · simpa [hb] using hy
+        · simp only [hb] at hy ⊢
+          simp only [Bool.false_eq_true, if_false] at hy ⊢
+          exact (Option.some.inj hy).symm
+    · cases h
+
+theorem isConcat_concatBases {t : CodeTable} {assign : List (String × List Char)} {pfx : String}
+    {bs : List BaseRef} {x : List Char} (h : IsConcat t assign pfx bs x) :
+    concatBases assign t pfx bs = some x := by
+  obtain ⟨parts, hp, rfl⟩ := h
+  induction hp with
+  | nil => rfl
+  | @cons b p bs ps h1 _ ih =>
+    obtain ⟨v, hv, hb⟩ := h1
+    have : seqOfBase assign t pfx b = some p := by
+      simp only [seqOfBase, hv]
+      by_cases hr : b.rev = true
+      · simpa [hr] using hb
+      · simp only [hr] at hb ⊢
+        simp only [Bool.false_eq_true, if_false] at hb ⊢
+        rw [hb]
+    simp only [concatBases, this, ih, List.flatten_cons]
+
+/-! ### (i) a successful `apply` satisfies the relations -/
+
+theorem partsOf_ok {pfx : String} {strands : List (String × Bool × List Char)} {names : List String}
+    {parts : List (List Char)} (h : partsOf pfx strands names = .ok parts) :
+    Forall₂ (fun (n : String) (p : List Char) =>
+      ∃ y, strands.find? (·.1 == pfx ++ n) = some y ∧ y.2.2 = p) names parts := by
+  refine ((mapM_ok_iff _ _ _).1 h).imp (fun n p _ hnp => ?_)
+  split at hnp
+  · rename_i y hy
+    cases hnp
+    exact ⟨y, hy, rfl⟩
+  · cases hnp
+
+theorem applyComp_rel {t : CodeTable} {d : List (List Char × List Char)} {s : Comp.St} {o : Out}
+    (h : applyComp t d s = .ok o) : CompRel t d s o := by
+  obtain ⟨assign, ha, hs, hst, hstr⟩ := applyComp_ok h
+  obtain ⟨rfl, hat⟩ := assignBases_ok ha
+  refine ⟨hat, ?_, ?_, ?_⟩
+  · refine ((mapM_ok_iff _ _ _).1 hs).imp (fun e x _ hex => ?_)
+    obtain ⟨v, hv, rfl⟩ := seqEntry_ok_iff.1 hex
+    exact ⟨rfl, concatBases_isConcat hv⟩
+  · refine ((mapM_ok_iff _ _ _).1 hst).imp (fun e x _ hex => ?_)
+    obtain ⟨v, hv, rfl⟩ := strandEntry_ok_iff.1 hex
+    exact ⟨rfl, rfl, concatBases_isConcat hv⟩
+  · refine ((mapM_ok_iff _ _ _).1 hstr).imp (fun e x _ hex => ?_)
+    obtain ⟨parts, hp, hl, rfl⟩ := structEntry_ok_iff.1 hex
+    exact ⟨rfl, parts, partsOf_ok hp, rfl, hl⟩
+
+theorem apply_relations {t : CodeTable} {inst : Inst} {d : List (List Char × List Char)} {out : Out}
+    (h : apply t inst d = .ok out) : Relations t inst d out := by
+  obtain ⟨outs, ho, rfl⟩ := (apply_ok_iff _ _ _ _).1 h
+  exact ⟨outs, ho.imp (fun s o _ hso => applyComp_rel hso), rfl⟩
+
+/-! ### (ii) only the relevant records are read -/
+
+theorem structEntry_congr {d d' : List (List Char × List Char)} {p : String}
+    {strands : List (String × Bool × List Char)} {e : StructE}
+    (h : lookupLast d' (p ++ e.name).toList = lookupLast d (p ++ e.name).toList) :
+    structEntry d' p strands e = structEntry d p strands e := by
+  simp only [structEntry, h]
+
+theorem mem_relevantComp_atom {s : Comp.St} {e : SeqE} (he : e ∈ s.baseSeqs) (h0 : e.len ≠ 0) :
+    (s.pfx ++ e.name).toList ∈ relevantComp s ∧ (s.pfx ++ e.name ++ "*").toList ∈ relevantComp s := by
+  have hm : e ∈ s.baseSeqs.filter (·.len != 0) := List.mem_filter.2 ⟨he, by simpa using h0⟩
+  constructor
+  · exact List.mem_append_left _ (List.mem_flatMap.2 ⟨e, hm, by simp⟩)
+  · exact List.mem_append_left _ (List.mem_flatMap.2 ⟨e, hm, by simp⟩)
+
+theorem mem_relevantComp_struct {s : Comp.St} {e : StructE} (he : e ∈ s.structs) :
+    (s.pfx ++ e.name).toList ∈ relevantComp s :=
+  List.mem_append_right _ (List.mem_map.2 ⟨e, he, rfl⟩)
+
+theorem applyComp_congr {t : CodeTable} {d d' : List (List Char × List Char)} {s : Comp.St}
+    (h : ∀ n ∈ relevantComp s, lookupLast d' n = lookupLast d n) : applyComp t d' s = applyComp t d s := by
+  rw [applyComp_eq, applyComp_eq]
+  rw [assignBases_congr (t := t) (d := d) (d' := d') (s := s) (l := s.baseSeqs) (fun e he h0 =>
+    ⟨h _ (mem_relevantComp_atom he h0).1, h _ (mem_relevantComp_atom he h0).2⟩)]
+  cases assignBases t d s s.baseSeqs with
+  | error err => rfl
+  | ok assign =>
+    simp only [bind, Except.bind]
+    cases List.mapM (seqEntry t assign s.pfx) s.seqs with
+    | error err => rfl
+    | ok seqs =>
+      simp only []
+      cases List.mapM (strandEntry t assign s.pfx) s.strands with
+      | error err => rfl
+      | ok strands =>
+        simp only []
+        rw [mapM_congr (f := structEntry d' s.pfx strands) (g := structEntry d s.pfx strands)
+          (fun e he => structEntry_congr (h _ (mem_relevantComp_struct he)))]
+
+theorem apply_congr_relevant {t : CodeTable} {inst : Inst} {d d' : List (List Char × List Char)}
+    (h : ∀ n ∈ relevant inst, lookupLast d' n = lookupLast d n) : apply t inst d' = apply t inst d := by
+  rw [apply_eq, apply_eq]
+  exact foldlM_applyStep_congr (fun s hs => applyComp_congr (fun n hn =>
+    h n (List.mem_flatMap.2 ⟨s, hs, hn⟩))) _
+
+/-! ### (iii) one changed relevant record is detected -/
+
+theorem toList_ne_star (a : String) : a.toList ≠ (a ++ "*").toList := by
+  intro h
+  have := congrArg List.length h
+  simp [String.toList_append] at this
+
+theorem apply_single_corruption {t : CodeTable} (hl : t.lawful = true) {inst : Inst}
+    {d d' : List (List Char × List Char)} {out : Out} (hd : apply t inst d = .ok out)
+    {n : List Char} (hn : n ∈ relevant inst) (hne : lookupLast d' n ≠ lookupLast d n)
+    (hsame : ∀ m ∈ relevant inst, m ≠ n → lookupLast d' m = lookupLast d m) :
+    ∃ e, apply t inst d' = .error e := by
+  cases hd' : apply t inst d' with
+  | error e => exact ⟨e, rfl⟩
+  | ok out' =>
+    exfalso
+    obtain ⟨outs, ho, _⟩ := (apply_ok_iff _ _ _ _).1 hd
+    obtain ⟨outs', ho', _⟩ := (apply_ok_iff _ _ _ _).1 hd'
+    have hrel : ∀ s ∈ compsOf 64 inst, ∀ m ∈ relevantComp s, m ∈ relevant inst :=
+      fun s hs m hm => List.mem_flatMap.2 ⟨s, hs, hm⟩
+    -- is `n` the name or starred name of a non-dummy atomic sequence?
+    by_cases hA : ∃ s ∈ compsOf 64 inst, ∃ e ∈ s.baseSeqs, e.len ≠ 0 ∧
+        (n = (s.pfx ++ e.name).toList ∨ n = (s.pfx ++ e.name ++ "*").toList)
+    · obtain ⟨s, hs, e, he, h0, hcase⟩ := hA
+      obtain ⟨o, _, hso⟩ := ho.of_mem_left hs
+      obtain ⟨o', _, hso'⟩ := ho'.of_mem_left hs
+      obtain ⟨v, w, hv, _, hw, hws⟩ := (applyComp_rel hso).atoms e he h0
+      obtain ⟨v', w', hv', _, hw', hws'⟩ := (applyComp_rel hso').atoms e he h0
+      have hm := mem_relevantComp_atom he h0
+      rcases hcase with rfl | rfl
+      · -- the plain record changed, the starred one did not: `wcStr` is injective
+        have hstar := hsame _ (hrel s hs _ hm.2) (Ne.symm (toList_ne_star _))
+        rw [hws, hws'] at hstar
+        cases hstar
+        have := wcStr_inj hl hw hw'
+        subst this
+        exact hne (hv'.trans hv.symm)
+      · -- the starred record changed, the plain one did not: `wcStr` is a function
+        have hplain := hsame _ (hrel s hs _ hm.1) (toList_ne_star _)
+        rw [hv, hv'] at hplain
+        cases hplain
+        rw [hw] at hw'
+        cases hw'
+        exact hne (hws'.trans hws.symm)
+    · -- otherwise `n` names a structure, and no atomic record of its component changed
+      obtain ⟨s, hs, hns⟩ := List.mem_flatMap.1 hn
+      rcases List.mem_append.1 hns with hns | hns
+      · obtain ⟨e, he, hne'⟩ := List.mem_flatMap.1 hns
+        obtain ⟨he1, he2⟩ := List.mem_filter.1 he
+        exact hA ⟨s, hs, e, he1, by simpa using he2, by simpa using hne'⟩
+      · obtain ⟨e, he, rfl⟩ := List.mem_map.1 hns
+        obtain ⟨o, _, hso⟩ := ho.of_mem_left hs
+        obtain ⟨o', _, hso'⟩ := ho'.of_mem_left hs
+        obtain ⟨a, ha, _, hst, hstr⟩ := applyComp_ok hso
+        obtain ⟨a', ha', _, hst', hstr'⟩ := applyComp_ok hso'
+        have hassign : assignBases t d' s s.baseSeqs = assignBases t d s s.baseSeqs := by
+          apply assignBases_congr
+          intro x hx hx0
+          have hm := mem_relevantComp_atom hx hx0
+          refine ⟨hsame _ (hrel s hs _ hm.1) ?_, hsame _ (hrel s hs _ hm.2) ?_⟩
+          · intro hc; exact hA ⟨s, hs, x, hx, hx0, Or.inl hc.symm⟩
+          · intro hc; exact hA ⟨s, hs, x, hx, hx0, Or.inr hc.symm⟩
+        rw [hassign, ha] at ha'
+        cases ha'
+        rw [hst] at hst'
+        have hse : o.strands = o'.strands := Except.ok.inj hst'
+        rw [← hse] at hstr'
+        obtain ⟨x, _, hx⟩ := ((mapM_ok_iff _ _ _).1 hstr).of_mem_left he
+        obtain ⟨x', _, hx'⟩ := ((mapM_ok_iff _ _ _).1 hstr').of_mem_left he
+        obtain ⟨parts, hp, hlk, _⟩ := structEntry_ok_iff.1 hx
+        obtain ⟨parts', hp', hlk', _⟩ := structEntry_ok_iff.1 hx'
+        rw [hp] at hp'
+        cases hp'
+        exact hne (hlk'.trans hlk.symm)
 
 end Pepper.Finish
